@@ -58,7 +58,12 @@ def load_cfg(pid):
 
 
 def all_ids():
-    return sorted(os.path.basename(p)[:-5] for p in glob.glob(os.path.join(VERIF, "checks", "C*.json")))
+    """properties accepted into the manifest: listed in checks/ENABLED and having a checks/<id>.json"""
+    try:
+        en = [l.strip() for l in open(os.path.join(VERIF, "checks", "ENABLED")) if l.strip() and not l.startswith("#")]
+    except FileNotFoundError:
+        en = []
+    return sorted(p for p in en if os.path.exists(os.path.join(VERIF, "checks", p + ".json")))
 
 
 # ----------------------------------------------------------------------------
